@@ -38,7 +38,7 @@ Lemma instr_supported a i : instr_at P a = Some i -> supported i = true.
 Proof. intros H. rewrite Forall_forall in Hsup. apply Hsup. eapply instr_at_In; eauto. Qed.
 
 (** * WB *)
-Lemma wb_stage s l3 s1 : prog (im s) = P -> lv P True False s l3 Mok -> wf s -> exitc s = None ->
+Lemma wb_stage s l3 s1 : prog (im s) = P -> lv3 P s l3 -> wf s -> exitc s = None ->
   regs s1 = regs s ->
   exists s2, wb_on l3 s1 = (option_map wb_slot l3, s2, None) /\
     flush_of (option_map wb_slot l3) = None /\
@@ -49,8 +49,7 @@ Lemma wb_stage s l3 s1 : prog (im s) = P -> lv P True False s l3 Mok -> wf s -> 
 Proof.
   intros HP L3 W Hex Hr. destruct l3 as [x3|].
   2:{ exists s1. rewrite wb_on_none. cbn [option_map flush_of adv nonempty]. csplit; try assumption; try reflexivity; lia. }
-  cbn [lv] in L3. destruct (L3 Logic.I) as (_ & (_ & Ha & Hi) & (e & te & tm & He & Hm) & _ & Hpl).
-  specialize (Hpl (fun f => f)). destruct Hpl as (Hok & Hex1 & _).
+  cbn [lv3] in L3. destruct L3 as (_ & (_ & Ha & Hi) & (e & te & tm & He & Hm) & Hok & Hex1).
   rewrite <- HP in Hi. pose proof (instr_supported _ _ ltac:(rewrite <- HP; exact Hi)) as Hs.
   destruct (nxt_fields s _ W Hex Hi Hs _ _ _ _ He Hm) as (_ & Hrg & _ & _ & Hexn & _ & _ & Hic & _).
   destruct (wb_never_faults s _ _ _ _ _ _ s1 Hs He Hm) as [s2 Hw]. exists s2.
@@ -298,22 +297,23 @@ Qed.
 
 
 (** * Moving a slot description from one latch to the next *)
-Definition same_slot (C C' : slot -> Prop) (l n : latch) : Prop :=
+Definition same_slot (t : st) (live' : Prop) (C C' : slot -> Prop) (l n : latch) : Prop :=
   match l, n with
-  | Some x, Some y => sl_instr y = sl_instr x /\ sl_addr y = sl_addr x /\ (C x -> C' y)
+  | Some x, Some y => sl_instr y = sl_instr x /\ sl_addr y = sl_addr x /\
+                      (live' -> wf t -> onp P t x -> C x -> C' y)
   | None, None => True
   | _, _ => False
   end.
 
 Lemma lv_map (live bar live' bar' : Prop) t l n (C C' : st -> slot -> Prop) :
   lv P live bar t l C -> (live' -> live) -> (bar' -> bar) -> (live' -> bar -> bar') ->
-  same_slot (C t) (C' t) l n -> lv P live' bar' t n C'.
+  same_slot t live' (C t) (C' t) l n -> lv P live' bar' t n C'.
 Proof.
   intros L Hl Hb Hb' S. destruct l as [x|], n as [y|]; cbn [same_slot] in S; try contradiction.
   - destruct S as (Hi & Ha & HC). cbn [lv] in *. intros Hlv'.
-    destruct (L (Hl Hlv')) as (W & (Hex & Hax & Hix) & Hc & Hbar & Hpl).
+    destruct (L (Hl Hlv')) as (W & Hon & Hc & Hbar & Hpl). pose proof Hon as (Hex & Hax & Hix).
     split; [exact W|]. split; [unfold onp; rewrite Hi, Ha; repeat split; assumption|].
-    split; [apply HC; exact Hc|]. rewrite Hi. split.
+    split; [apply HC; assumption|]. rewrite Hi. split.
     + intros B'. apply Hbar. apply Hb. exact B'.
     + intros NB'. apply Hpl. intros B. apply NB'. apply Hb'; assumption.
   - cbn [lv] in *. intros B'. apply L. apply Hb. exact B'.
@@ -322,7 +322,7 @@ Qed.
 Lemma nonempty_id_on hz l0 l1 l2 s : nonempty (id_on hz l0 l1 l2 s) = nonempty l0.
 Proof. destruct l0; [rewrite id_on_some|]; reflexivity. Qed.
 
-Lemma same_slot_nonempty C C' l n : same_slot C C' l n -> nonempty n = nonempty l.
+Lemma same_slot_nonempty t lv' C C' l n : same_slot t lv' C C' l n -> nonempty n = nonempty l.
 Proof. destruct l, n; cbn; tauto. Qed.
 
 
@@ -366,6 +366,50 @@ Proof.
   intros HP W Hl. destruct l as [x|]; [|split; assumption]. destruct Hl as (Hex & _ & Hi).
   rewrite <- HP in Hi. destruct (wf_nxt t _ W Hex Hi) as [Wn Hpn]. cbn [adv nonempty].
   split; [congruence|exact Wn].
+Qed.
+
+
+(** * The pipeline is done exactly when the single-cycle machine is *)
+Lemma done_iff p s l0 l1 l2 l3 l4 dead : InvAt P p s l0 l1 l2 l3 l4 dead ->
+  pipe_done p = single_done s.
+Proof.
+  intros [Hl Sh Hz HPp HPs W Hexs Hd D1 L3 L2 L1 L0 HF Hrg Hms Hbc Hpcn Hout Hexc Hic].
+  unfold pipe_done, single_done, pipe_empty, has_instr. rewrite Hexc, Hexs, Hl, HPp, HPs. lat5.
+  assert (Hon : forall x, onp P s x -> instr_at P (pc s) <> None).
+  { intros x (_ & _ & Hi). rewrite Hi. discriminate. }
+  destruct l3 as [x3|]; cbn [nonempty orb negb andb adv lv3] in *.
+  { rewrite Bool.orb_true_r. cbn [negb andb]. destruct L3 as (_ & Ho & _).
+    apply Hon in Ho. destruct (instr_at P (pc s)); [reflexivity|congruence]. }
+  destruct l2 as [x2|]; cbn [nonempty orb negb andb adv lv] in *.
+  { rewrite Bool.orb_true_r. cbn [negb andb]. destruct (L2 Logic.I) as (_ & Ho & _).
+    apply Hon in Ho. destruct (instr_at P (pc s)); [reflexivity|congruence]. }
+  destruct l1 as [x1|]; cbn [nonempty orb negb andb adv lv] in *.
+  { rewrite Bool.orb_true_r. cbn [negb andb]. destruct (L1 ltac:(lia)) as (_ & Ho & _).
+    apply Hon in Ho. destruct (instr_at P (pc s)); [reflexivity|congruence]. }
+  destruct l0 as [x0|]; cbn [nonempty orb negb andb adv lv] in *.
+  { destruct (L0 ltac:(lia)) as (_ & Ho & _).
+    apply Hon in Ho. destruct (instr_at P (pc s)); [reflexivity|congruence]. }
+  assert (H0 : dead = 0%nat) by lia. destruct (HF H0) as (_ & _ & _ & Hpc). rewrite Hpc. reflexivity.
+Qed.
+
+(* the architectural state of an empty pipeline *)
+Lemma inv_empty_agree p s l0 l1 l4 dead : InvAt P p s l0 l1 None None l4 dead -> arch_agree p s.
+Proof.
+  intros [Hl Sh Hz HPp HPs W Hexs Hd D1 L3 L2 L1 L0 HF Hrg Hms Hbc Hpcn Hout Hexc Hic].
+  cbn [adv nonempty fired] in *. unfold arch_agree. rewrite Hexc, Hexs. repeat split; assumption.
+Qed.
+
+
+Lemma done_empty p s l0 l1 l2 l3 l4 dead : InvAt P p s l0 l1 l2 l3 l4 dead ->
+  single_done s = true -> l3 = None /\ l2 = None.
+Proof.
+  intros [Hl Sh Hz HPp HPs W Hexs Hd D1 L3 L2 L1 L0 HF Hrg Hms Hbc Hpcn Hout Hexc Hic] Hdone.
+  unfold single_done, has_instr in Hdone. rewrite Hexs, HPs in Hdone.
+  assert (Hon : forall x, onp P s x -> False).
+  { intros x (_ & _ & Hi). rewrite Hi in Hdone. discriminate. }
+  destruct l3 as [x3|]; [exfalso; destruct L3 as (_ & Ho & _); eauto|].
+  split; [reflexivity|]. cbn [adv nonempty] in L2.
+  destruct l2 as [x2|]; [exfalso; destruct (L2 Logic.I) as (_ & Ho & _); eauto|reflexivity].
 Qed.
 
 End Stages.
